@@ -1,10 +1,11 @@
 (* Single entry point of the executable models: function id + argument tree -> result tree. *)
-From PV Require Export Model.ComponentsX Model.EnginesX.
+From PV Require Export Model.ComponentsX Model.EnginesX Model.DecompX.
 
 Definition dispatch (f : Z) (x : sx) : sx :=
   match f with
   | 1 => x_bs x | 2 => x_ps x | 3 => x_wp x | 4 => x_pr x | 5 => x_perm x | 6 => x_check_value x | 7 => x_unit_prod x
   | 10 => x_run_prog x
   | 20 => x_amps x | 21 => x_amp1 x | 22 => x_dist x | 23 => x_masked x | 24 => x_submatrix x
+  | 1200 => x_close_to x | 1201 => x_diag_equiv x | 1202 => x_decomp x
   | _ => L []
   end%Z.
